@@ -225,7 +225,14 @@ class Driver:
         lines = p.stdout.splitlines()
         if len(lines) != len(requests):
             raise InfraError(f"driver {self.path.name}: {len(lines)} replies for {len(requests)} requests")
-        return [json.loads(l) for l in lines]
+        out = [json.loads(l) for l in lines]
+        dbg = os.environ.get("VERIF_DEBUG_DRIVER")
+        if dbg:
+            with open(dbg, "a") as f:
+                for q, r in zip(requests, out):
+                    if "MissingSiteOutcome" in json.dumps(r):
+                        f.write(json.dumps({"q": q, "r": r})[:6000] + "\n")
+        return out
 
 
 # --------------------------------------------------------------------------
